@@ -63,7 +63,9 @@ def prepare(build=True):
         oracle = common.build_oracle()
     else:
         oracle = ORACLE
-    binary = drv.build(CACHE / "drv", CACHE / "target-drv")
+    import common as _c
+    with _c.locked("cargo-drv"):
+        binary = drv.build(CACHE / "drv", CACHE / "target-drv")
     return oracle, binary
 
 
